@@ -57,7 +57,7 @@ def wire(req):
 
 BREAKING = {"m2-flip", "m2-drop", "wrong-code", "m4-flip", "m4-drop-proof", "m4-other-proof", "m4-truncate-proof", "m6-flip", "m6-drop-enc", "m6-wrong-key",
             "m6-wrong-label", "m6-wrong-signer", "m6-other-id-unsigned", "m6-other-ltpk-unsigned", "m6-transcript", "m6-drop-inner",
-            "m6-ltpk-len", "m6-truncate", "m6-flip-inner"}
+            "m6-ltpk-len", "m6-truncate", "m6-flip-inner", "m2-state-odd", "m4-state-odd", "m6-state-odd", "m6-inner-outside"}
 # m6-dup-inner-other: a second, unsigned Identifier/LTPK besides the signed ones.  Which copy a decoder keeps is its own business, so the
 # exchange may fail or succeed - but a success must return exactly the signed identity (checked for every returned record).
 PRESERVING = {"none", "m6-dup-inner-other", "m2-reorder", "m4-reorder", "m6-reorder", "m6-reorder-inner", "m2-drop-state", "m4-drop-state", "m6-drop-state"}
@@ -77,8 +77,11 @@ class SetupPeer:
         self.salt = (bytes(case.get("salt_zeros", 0)) + h("salt", k))[:16]
         self.a = int.from_bytes(h("a", k)[:16], "big") | 1
         self.b = int.from_bytes(h("b", k)[:16], "big") | 1
+        if case.get("srp"):          # a mined exchange (data/c02_corpus.json): some SRP value starts with a zero byte
+            self.salt, self.a, self.b = bytes.fromhex(case["srp"]["salt"]), case["srp"]["a"], case["srp"]["b"]
         self.ident = RefIdentity(self.acc_id, h("acc-ltsk", k))
         self.acc = RefPairSetup(self.ident, self.code if self.name != "wrong-code" else case["other_code"], self.salt, self.b)
+        self.attempts = [self.acc]       # a conformant accessory starts a new exchange (new salt, new B) for every M1
         if self.name == "wrong-code" and case["other_code"] == self.code:
             self.name, self.fault = "none", ["none"]
         self.lt_seed = h("ios-new-ltsk", k)
@@ -98,11 +101,25 @@ class SetupPeer:
         self.malformed = f"request with State {st_!r}: {items!r:.200}"
         return tlv_enc([(T_STATE, b"\x02"), (T_ERROR, b"\x01")])
 
+    @staticmethod
+    def _odd_state(items, exp, variant):
+        """State of length 0, expected value plus a second byte, two adjacent State items, 255."""
+        new = [[(T_STATE, b"")], [(T_STATE, bytes([exp, 2]))], [(T_STATE, bytes([exp])), (T_STATE, bytes([exp + 1]))], [(T_STATE, b"\xff")]][variant % 4]
+        out = []
+        for t, v in items:
+            out += new if t == T_STATE else [(t, v)]
+        return out
+
     def _m2(self, items):
         name, fault = self.name, self.fault
         m1 = dict(items)
         if m1.get(refhap.T_METHOD) not in (b"\x00", b"\x01"):
             self.malformed = f"M1 = {m1!r}"
+        if self.stage != "m1":
+            n = len(self.attempts)
+            salt = (bytes(self.case.get("salt_zeros", 0)) + h("salt", self.k, n))[:16]
+            self.acc = RefPairSetup(self.ident, self.code, salt, int.from_bytes(h("b", self.k, n)[:16], "big") | 1)
+            self.attempts.append(self.acc)
         m2 = self.acc.m2()
         if name == "m2-flip":
             field = {"salt": T_SALT, "pk": T_PK, "state": T_STATE}[fault[1]]
@@ -114,6 +131,8 @@ class SetupPeer:
             m2 = list(reversed(m2))
         elif name == "m2-drop-state":
             m2 = [(t, v) for t, v in m2 if t != T_STATE]
+        elif name == "m2-state-odd":
+            m2 = self._odd_state(m2, 2, fault[1])
         self.stage = "m2"
         return tlv_enc(m2)
 
@@ -141,6 +160,8 @@ class SetupPeer:
             m4 = list(reversed(m4))
         elif name == "m4-drop-state":
             m4 = [(t, v) for t, v in m4 if t != T_STATE]
+        elif name == "m4-state-odd":
+            m4 = self._odd_state(m4, 4, fault[1])
         self.stage = "m4"
         return tlv_enc(m4)
 
@@ -163,6 +184,16 @@ class SetupPeer:
                 rebuild = False
             elif name == "m6-drop-state":
                 m6 = [(t, v) for t, v in m6 if t != T_STATE]
+                rebuild = False
+            elif name == "m6-state-odd":
+                m6 = self._odd_state(m6, 6, fault[1])
+                rebuild = False
+            elif name == "m6-inner-outside":
+                # some of Identifier / LTPK / Signature are not in the encrypted sub-TLV but next to it, in the clear
+                moved = [[T_ID], [T_PK], [T_SIG], [T_ID, T_PK], [T_ID, T_PK, T_SIG]][fault[1] % 5]
+                outside = [(t, v) for t, v in inner if t in moved]
+                m6 = acc.m6([(t, v) for t, v in inner if t not in moved])
+                m6 = (m6 + outside) if fault[1] & 8 else (m6[:1] + outside + m6[1:])
                 rebuild = False
             elif name == "m6-truncate":
                 raw = tlv_enc(m6)
@@ -291,7 +322,7 @@ def judge(case, R, peer, result, exc, transport, verify=True):
     if not ok:
         R.fail("C03.record-inconsistent", f"{what}: {result!r:.400} vs accessory id {acc_id!r} ltpk {ident.ltpk.hex()} controller key {acc.controller_ltpk.hex()}")
         return
-    if PAD(acc.srp.A)[0] == 0 or PAD(acc.srp.B)[0] == 0 or PAD(acc.srp.S)[0] == 0 or acc.srp.M1[0] == 0 or acc.srp.K[0] == 0:
+    if PAD(acc.srp.A)[0] == 0 or PAD(acc.srp.B)[0] == 0 or PAD(acc.srp.S)[0] == 0 or acc.srp.M1[0] == 0 or acc.srp.K[0] == 0 or acc.srp.M2[0] == 0:
         R.nt()
         R.cls("leading-zero-hit")
     if not verify:
@@ -391,7 +422,17 @@ async def _e2e_ble(loop, peer, case):
     orig_est = bdisc_mod.establish_connection
     try:
         bdisc_mod.establish_connection = bpair_mod.establish_connection       # the world's fake
-        w.acc.setup_handler = peer.respond
+        from bleak.exc import BleakError
+        retry = case.get("retry")           # ["drop", state] : the link drops when that request arrives, once; ["wrong-code"] : a mistyped code first
+        dropped = []
+
+        def handler(items):
+            if retry and retry[0] == "drop" and not dropped and dict(items).get(T_STATE) == bytes([retry[1]]):
+                dropped.append(1)
+                w.client.drop()
+                raise BleakError("simulated: link lost")
+            return peer.respond(items)
+        w.acc.setup_handler = handler
         w.acc.setup_reply_pieces = case.get("pieces")
         w.acc.feature_flags = 1 if case.get("with_auth") else 0
         w.controller.pairings.clear()
@@ -400,8 +441,17 @@ async def _e2e_ble(loop, peer, case):
         result, exc = None, None
         try:
             finish = await d.async_start_pairing("alias")
-            obj = await finish(peer.code)
-            result = obj.pairing_data
+            if retry and retry[0] == "wrong-code":
+                wrong = "%03d-%02d-%03d" % ((int(peer.code[:3]) + 1) % 1000, int(peer.code[4:6]), int(peer.code[7:]))
+                try:
+                    await finish(wrong)
+                    exc = RuntimeError("the mistyped code was accepted")
+                except Exception:  # noqa: BLE001
+                    pass
+                peer.expect_rejected = len(peer.attempts)        # exchanges so far were driven with the wrong code
+            if exc is None:
+                obj = await finish(peer.code)
+                result = obj.pairing_data
         except Exception as e:  # noqa: BLE001
             exc = e
         extra = {"registered": w.controller.pairings.get("alias"), "obj": result, "expect": {"AccessoryAddress": "00:11:22:33:44:55", "Connection": "BLE"}}
@@ -422,9 +472,26 @@ def run_e2e(case, R):
     R.cls("fault:" + peer.name, "transport:" + transport)
     with injected(peer.a, peer.lt_seed):
         result, exc, extra = vtime.run(E2E[transport], peer, case)
-    what = f"fault={peer.fault} transport={transport}"
+    what = f"fault={peer.fault} transport={transport}" + (f" retry={case['retry']}" if case.get("retry") else "")
     if peer.requests == 0 and exc is not None:
         raise exc          # nothing reached the accessory: the world is broken, not the code under test
+    if case.get("retry"):
+        # the controller started over: every exchange it drove with the right code must carry a proof the conformant accessory accepts
+        R.nt()
+        R.cls("retry:" + case["retry"][0], "exchanges:%d" % len(peer.attempts))
+        first_right = getattr(peer, "expect_rejected", 0)
+        for n, a_ in enumerate(peer.attempts):
+            if n >= first_right and a_.m3_seen and not a_.m3_ok:
+                R.fail("C03.controller-m3-rejected", f"{what}: exchange {n + 1} of {len(peer.attempts)} (right code): the reference accessory rejected the controller's SRP proof",
+                       retry=case["retry"][0])
+                return
+        if len(peer.attempts) < 2:
+            R.cls("retry:no-second-exchange")
+        if result is None:
+            R.cls("retry:failed")
+            if extra["registered"] is not None:
+                R.fail("C03.failed-pairing-registered", f"{what}: pairing failed with {exc!r:.120} but controller.pairings['alias'] exists", family=peer.name)
+            return
     if result is None and extra["registered"] is not None:
         R.fail("C03.failed-pairing-registered", f"{what}: pairing failed with {exc!r:.120} but controller.pairings['alias'] exists", family=peer.name)
         return
@@ -451,6 +518,17 @@ def e2e_cases(draw):
     case["verify_after"] = draw(st.integers(0, 9)) == 0
     case["port"] = draw(st.sampled_from([5683, 51826, 1, 65535, 8080]))
     return case
+
+
+def enum_retry(tier):
+    i = 0
+    for retry in (["drop", 3], ["drop", 5], ["drop", 1], ["wrong-code"]):
+        for rep in range(2 if tier == "quick" else 10):
+            for att, pieces in ((155, None), (100, 100), (512, None)):
+                i += 1
+                yield {"k": SEED * 611953 + i, "code": "%03d-%02d-%03d" % (i * 37 % 1000, i % 100, (i * 7) % 1000), "acc_id": "AA:BB:CC:DD:EE:FF",
+                       "ios_id": "decc6fa3-de3e-41c9-adba-ef7409821bfc", "with_auth": bool(i % 2), "salt_zeros": 0, "fault": ["none"], "transport": "ble",
+                       "att": att, "pieces": pieces, "retry": retry}
 
 
 def enum_e2e(tier):
@@ -510,6 +588,10 @@ def enum_families(tier):
             fl += [[name, p] for p in range(5)]
         elif name == "m6-dup-inner-other":
             fl += [[name, p] for p in range(8)]
+        elif name.endswith("-state-odd"):
+            fl += [[name, p] for p in range(4)]
+        elif name == "m6-inner-outside":
+            fl += [[name, p] for p in (0, 1, 2, 3, 4, 8, 9, 10, 11, 12)]
         elif name == "m4-truncate-proof":
             fl += [[name, p] for p in ([0, 31, 62, 64, 64 + 31, 64 + 62, 64 + 55] if tier == "quick" else range(128))]
         elif name == "m6-truncate":
@@ -517,13 +599,43 @@ def enum_families(tier):
         else:
             fl.append([name, 0] if name != "wrong-code" else [name])
     for f in fl:
-        for dec_ in (("ip", "ble") if tier == "thorough" or f[0] in ("none", "m2-reorder", "m4-reorder", "m6-reorder") else ("ip" if i % 2 else "ble",)):
+        for dec_ in (("ip", "ble") if tier == "thorough" or f[0] in ("none", "m2-reorder", "m4-reorder", "m6-reorder", "m6-inner-outside") else ("ip" if i % 2 else "ble",)):
             i += 1
             c = {"k": SEED * 7919 + i, "code": "%03d-%02d-%03d" % (i % 1000, i % 100, (i * 7) % 1000), "acc_id": "AA:BB:CC:DD:EE:FF",
                  "ios_id": "decc6fa3-de3e-41c9-adba-ef7409821bfc", "decode": dec_, "with_auth": bool(i % 2), "salt_zeros": [0, 0, 2][i % 3], "fault": f}
             if f[0] == "wrong-code":
                 c["other_code"] = "999-99-999"
             yield c
+
+
+def _corpus():
+    import json
+    with open(os.path.join(os.path.dirname(os.path.dirname(os.path.abspath(__file__))), "data", "c02_corpus.json")) as fh:
+        return json.load(fh)
+
+
+def enum_corpus(tier):
+    """Exchanges mined for a leading zero byte in A, B, S, K, M1 or M2, run through the whole pair-setup (the accessory must still accept M3 and M5)."""
+    for i, e in enumerate(_corpus()):
+        for dec_ in ("ip", "ble"):
+            yield {"k": 500000 + i, "code": e["code"], "acc_id": "AA:BB:CC:DD:EE:FF", "ios_id": "decc6fa3-de3e-41c9-adba-ef7409821bfc", "decode": dec_, "with_auth": bool(i % 2),
+                   "fault": ["none"], "srp": {"salt": e["salt"], "a": e["a"], "b": e["b"]}, "hits": e["hits"]}
+
+
+def enum_corpus_e2e(tier):
+    for i, c in enumerate(enum_corpus(tier)):
+        if c["decode"] == "ble":
+            continue
+        c.pop("decode")
+        c["transport"] = ("ip", "ble", "coap")[i % 3]
+        yield c
+
+
+def run_corpus(case, R):
+    run_case(case, R)
+    R.nt()
+    if "leading-zero-hit" not in R.classes and not R.failures:
+        raise RuntimeError(f"corpus entry {case['srp']} (hits {case.get('hits')}) does not produce a leading zero in this exchange")
 
 
 SPEC = Property(
@@ -538,8 +650,15 @@ SPEC = Property(
         Layer("fault-families", run_case, enumerate=enum_families, exhaustive=True,
               space="every fault family with its parameter grid (quick: sampled bit positions; thorough: every bit of salt/proof/M6, every 8th bit of B)", min_nontrivial=60),
         Layer("generated", run_case, strategy=cases, n={"quick": 2400, "thorough": 40000}, min_nontrivial=300),
+        Layer("leading-zero-exchanges", run_corpus, enumerate=enum_corpus, exhaustive=True,
+              space="the mined exchanges of data/c02_corpus.json (A, B, S, K, M1 or M2 starting with 0x00) as complete honest pair-setups x {ip, ble} decode", min_nontrivial=100),
+        Layer("leading-zero-end-to-end", run_e2e, enumerate=enum_corpus_e2e, exhaustive=True,
+              space="the same mined exchanges through the Discovery classes (transport in rotation)", min_nontrivial=0),
         Layer("end-to-end-families", run_e2e, enumerate=enum_e2e, exhaustive=True,
               space="every fault family (quick grid) through IpDiscovery / BleDiscovery / CoAPDiscovery.async_start_pairing + finish_pairing on the simulated transports", min_nontrivial=30),
+        Layer("ble-restarted-exchanges", run_e2e, enumerate=enum_retry, exhaustive=True,
+              space="BleDiscovery pairing where finish_pairing runs twice: the link drops when M1/M3/M5 arrives (the library retries), or a mistyped code is followed by the right one; "
+                    "the accessory starts a fresh exchange (new salt, new B) for every M1", min_nontrivial=10),
         Layer("end-to-end-generated", run_e2e, strategy=e2e_cases, n={"quick": 300, "thorough": 6000}, min_nontrivial=100),
     ],
     assumptions=["reference accessory (vlib/refhap.py RefPairSetup, SrpExchange) written from HAP R2 5.6 and RFC 5054",
